@@ -1,3 +1,5 @@
 import Driver.Codec
 import Driver.Span
 import Driver.Lines
+import Driver.Ast
+import Driver.Html
